@@ -41,6 +41,7 @@ Proof. intros s x new Js. exact (proj2 (source_set_op_MK s x new Js)). Qed.
    OSource clause of op_okb3, evaluated by the driver on every generated switch. *)
 Theorem C14_switch_reestablishes_invariants_for_charges : forall s x new,
   KJ (fst s) ->
+  (forall y, get_ss (fst s) x = Some y -> onat_eqb (ss_source y) new = false -> LS (fst (src_mid s x y new))) ->
   (forall y, get_ss (fst s) x = Some y -> new <> None ->
      let m := fst (src_mid s x y new) in
      NoDup (flat_map (fit_list m) (ss_fit_list m x)) /\
@@ -49,9 +50,24 @@ Theorem C14_switch_reestablishes_invariants_for_charges : forall s x new,
   KJ (fst (fst (source_set_op s x new))).
 Proof. exact source_set_op_KJ. Qed.
 
+(* ---- every history, base layer: a directly held item that is loaded sits in a container of a fit and is
+   loaded from the source the solar system of that fit has NOW. Nothing stays loaded from a source that was
+   switched away, from a solar system the fit has left, or after the item left its fit. Proved through every
+   operation (LS, part of the invariant KJ); at a source switch the statement for the moment between unloading
+   and reloading is part of the hypothesis op_okb3 (evaluated by the driver on every generated switch), i.e. for
+   the switch itself the theorem says: if unloading left nothing loaded from the old source, reloading loads
+   everything from the new one -- PARTIAL there, outright everywhere else. ---- *)
+Theorem C14_loaded_from_current_source_after_every_history : forall pen ops,
+  ops_clean3b (init_sys pen) ops = true ->
+  let w := s_w (run (init_sys pen) ops) in
+  forall j jit src, get_item w j = Some jit -> direct jit -> i_loaded jit = Some src ->
+    exists f, fit_of_place (i_cont jit) = Some f /\ fit_source_id w f = Some src.
+Proof. exact loaded_from_current_source. Qed.
+
 Print Assumptions C14_same_source_noop.
 Print Assumptions C14_switch_reestablishes_invariants.
 Print Assumptions C14_switch_moves_nothing.
 Print Assumptions C14_unload_load_keep_structure.
 Print Assumptions C14_unloaded_runs_nothing.
 Print Assumptions C14_switch_reestablishes_invariants_for_charges.
+Print Assumptions C14_loaded_from_current_source_after_every_history.
